@@ -2,16 +2,14 @@ package main
 
 import (
 	"fmt"
-	"net/http"
-	"net/http/httptest"
-	"os"
-	"runtime/pprof"
-	"time"
 	"io"
+	"net"
+	"os"
+	"time"
 
 	"github.com/ozontech/file.d/metric"
 	"github.com/ozontech/file.d/pipeline"
-	"github.com/ozontech/file.d/plugin/output/loki"
+	"github.com/ozontech/file.d/plugin/output/gelf"
 	insaneJSON "github.com/ozontech/insane-json"
 	"github.com/prometheus/client_golang/prometheus"
 	"go.uber.org/zap"
@@ -23,19 +21,21 @@ func (ctl) Commit(*pipeline.Event) {}
 func (ctl) Error(string)           {}
 
 func main() {
-	n := 0
-	srv := httptest.NewServer(http.HandlerFunc(func(w http.ResponseWriter, r *http.Request) {
-		b, _ := io.ReadAll(r.Body)
-		n++
-		fmt.Printf("REQ %d: %s\n", n, b)
-		if n == 1 {
-			w.WriteHeader(500)
-		} else {
-			w.WriteHeader(204)
+	ln, _ := net.Listen("tcp", "127.0.0.1:0")
+	got := make(chan []byte, 4)
+	go func() {
+		for {
+			c, err := ln.Accept()
+			if err != nil {
+				return
+			}
+			b, _ := io.ReadAll(c)
+			got <- b
 		}
-	}))
-	p := &loki.Plugin{}
-	p.Start(&loki.Config{Address: srv.URL, MessageField: "message", TimestampField: "ts", RequestTimeout_: time.Second, ConnectionTimeout_: time.Second,
+	}()
+	p := &gelf.Plugin{}
+	p.Start(&gelf.Config{Endpoint: ln.Addr().String(), ReconnectInterval_: time.Hour, ConnectionTimeout_: time.Second, WriteTimeout_: time.Second,
+		HostField: "host", ShortMessageField: "message", DefaultShortMessageValue: "not set", TimestampField: "time", TimestampFieldFormat: "rfc3339nano", LevelField: "level",
 		WorkersCount_: 1, BatchSize_: 4, BatchFlushTimeout_: time.Hour, Retention_: time.Second, RetentionExponentMultiplier: 2, Retry: 1},
 		&pipeline.OutputPluginParams{PluginDefaultParams: pipeline.PluginDefaultParams{PipelineName: "x", PipelineSettings: &pipeline.Settings{AvgEventSize: 1, Capacity: 8},
 			MetricCtl: metric.NewCtl("x", prometheus.NewRegistry(), 0, 0)}, Controller: ctl{}, Router: pipeline.NewRouter(), Logger: zap.NewNop().Sugar()})
@@ -47,19 +47,11 @@ func main() {
 		}
 		evs = append(evs, &pipeline.Event{Root: root})
 	}
-	ev := evs[0]
 	batch := pipeline.NewPreparedBatch(evs)
-	go func() {
-		time.Sleep(2 * time.Second)
-		pprof.Lookup("goroutine").WriteTo(os.Stderr, 2)
-		os.Exit(3)
-	}()
 	wd := pipeline.WorkerData(nil)
-	for i := 0; i < 3; i++ {
+	for i := 0; i < 2; i++ {
 		err := p.VerifOut(&wd, batch)
-		fmt.Printf("attempt %d err=%v\nevent now: %s\n", i, err != nil, ev.Root.EncodeToString())
-		if err == nil {
-			break
-		}
+		p.VerifReconnect(&wd)
+		fmt.Printf("attempt %d err=%v payload=%q\n", i, err != nil, <-got)
 	}
 }
